@@ -808,15 +808,29 @@ func (r *NRun) mutate(sp *MsgSpec, mu Mutation) bool {
 				return false
 			}
 			p.PSenders = p.PSenders[:len(p.PSenders)-1-mu.A%len(p.PSenders)]
-		case "proof-inst":
-			p.PP.Inst++
-			p.P.Inst++
+		case "proof-inst": // both references, or only one of them (the two halves of a proof must name ONE instance / height)
+			switch mu.A % 3 {
+			case 0:
+				p.PP.Inst++
+				p.P.Inst++
+			case 1:
+				p.P.Inst++
+			case 2:
+				p.PP.Inst++
+			}
 			if mu.Resign {
 				r.resignProof(p)
 			}
 		case "proof-height":
-			p.PP.H++
-			p.P.H++
+			switch mu.A % 3 {
+			case 0:
+				p.PP.H++
+				p.P.H++
+			case 1:
+				p.P.H++
+			case 2:
+				p.PP.H++
+			}
 			if mu.Resign {
 				r.resignProof(p)
 			}
